@@ -611,6 +611,31 @@ pub fn gen(seed: u64, thorough: bool) -> Vec<String> {
         let o = orders[(k as usize / 16) % 4];
         out.push(format!("enc {name} {w} {h} {color} {d} {q} {m} {th} {o} {}", rng.below(1 << 30)));
     }
+    // very many fragments (more than 256 per worker thread, more than 512 in total): any batching / windowing of
+    // the fragment list must keep absolute fragment indexes. Spread over the list so that check.py's chunks balance.
+    let mut many = vec![];
+    for (name, q, w, h, ths) in [
+        ("BC1_UNORM", "high", 64u64, 1030u64, &[1usize, 2][..]),
+        ("BC1_UNORM", "high", 40, 2056, &[1, 2, 3][..]),
+        ("BC7_UNORM", "fast", 64, 1030, &[1][..]),
+        ("BC4_UNORM", "high", 16, 4100, &[1, 2, 16][..]),
+    ] {
+        for &th in ths {
+            let o = orders[th % 4];
+            many.push(format!("enc {name} {w} {h} rgba8 none {q} uni {th} {o} {}", rng.below(1 << 30)));
+        }
+    }
+    if thorough {
+        many.push("enc BC4_UNORM 1024 1031 g8 none fast uni 1 nat 5".into());
+        many.push("enc BC5_UNORM 1024 2059 rgba8 none fast uni 2 rev 5".into());
+        many.push("enc BC3_UNORM 48 3100 rgba8 none high uni 3 rnd 5".into());
+        many.push("enc BC7_UNORM 33 2059 rgba8 none fast uni 2 free 5".into());
+    }
+    let stride = (out.len() / (many.len() + 1)).max(1);
+    for (i, m) in many.into_iter().enumerate() {
+        let at = ((i + 1) * stride).min(out.len());
+        out.insert(at, m);
+    }
     // empty images
     for name in ["BC1_UNORM", "R8G8B8A8_UNORM", "BC7_UNORM"] {
         out.push(format!("enc {name} 0 0 rgba8 none fast uni 4 nat 1"));
